@@ -152,6 +152,7 @@ class _ShardState:
         self.suppressed = suppressed
         self.ctx = Ctx()
         self.evals = 0
+        self.extra_nt = 0
         self.keys = set()
         self.classes = Counter()
         self.known_hits = Counter()
@@ -203,6 +204,9 @@ class _ShardState:
             if self.t_fail is None:
                 self.t_fail = time.time()
             raise v
+        # a check that enumerates a finite space inside one call reports its size here
+        self.evals += self.ctx.counters.pop("__extra_evals__", 0)
+        self.extra_nt += self.ctx.counters.pop("__extra_nontrivial__", 0)
         self._account(case)
 
     def _account(self, case):
@@ -252,7 +256,7 @@ def _run_shard(task):
                 hyp_count = st.evals - before
         out.update({
             "evals": st.evals, "enum": enum_count, "hyp": hyp_count,
-            "keys": st.keys, "classes": dict(st.classes), "counters": dict(st.ctx.counters),
+            "keys": st.keys, "extra_nt": st.extra_nt, "classes": dict(st.classes), "counters": dict(st.ctx.counters),
             "known_hits": dict(st.known_hits), "known_examples": st.known_examples,
             "suppressed_hits": st.suppressed_hits,
             "samples": st.samples + st.nt_samples,
@@ -360,7 +364,7 @@ def run_property(prop_id, tier, seed, workers=None):
         violations.append((v.sig, os.path.join(reg_dir, fn), v.detail))
 
     workers = workers or int(os.environ.get("VERIF_WORKERS", "16"))
-    agg = {c.name: {"evals": 0, "enum": 0, "hyp": 0, "keys": set(), "classes": Counter(),
+    agg = {c.name: {"evals": 0, "enum": 0, "hyp": 0, "keys": set(), "extra_nt": 0, "classes": Counter(),
                     "counters": Counter(), "samples": [], "known_hits": Counter(),
                     "suppressed_hits": 0, "wall": 0.0} for c in clauses}
     errors = []
@@ -387,6 +391,7 @@ def run_property(prop_id, tier, seed, workers=None):
             if rnd == 0:
                 a["evals"] += r["evals"]; a["enum"] += r["enum"]; a["hyp"] += r["hyp"]
                 a["keys"] |= r["keys"]
+                a["extra_nt"] += r["extra_nt"]
                 a["classes"].update(r["classes"]); a["counters"].update(r["counters"])
                 if len(a["samples"]) < 6:
                     a["samples"].extend(r["samples"][: 6 - len(a["samples"])])
@@ -426,7 +431,7 @@ def run_property(prop_id, tier, seed, workers=None):
 
     # evidence
     total_evals = sum(a["evals"] for a in agg.values()) + n_regress
-    total_nt = sum(len(a["keys"]) for a in agg.values())
+    total_nt = sum(len(a["keys"]) + a["extra_nt"] for a in agg.values())
     samples = []
     for c in clauses:
         for s in agg[c.name]["samples"][:3]:
@@ -448,7 +453,7 @@ def run_property(prop_id, tier, seed, workers=None):
                     "enumeration": ({"exhaustive": bool(c.exhaustive), "what": c.enum_desc}
                                     if c.enum is not None else None),
                     "generated": agg[c.name]["hyp"],
-                    "distinct_nontrivial": len(agg[c.name]["keys"]),
+                    "distinct_nontrivial": len(agg[c.name]["keys"]) + agg[c.name]["extra_nt"],
                     "classes": dict(sorted(agg[c.name]["classes"].items())),
                     "counters": dict(sorted(agg[c.name]["counters"].items())),
                     "excluded_by_known_finding": sum(agg[c.name]["known_hits"].values()),
@@ -480,7 +485,7 @@ def run_property(prop_id, tier, seed, workers=None):
     for cname in agg:
         a = agg[cname]
         print("  clause %-22s evals=%-8d enum=%-7d nontrivial=%-7d known=%d  %.1fs" % (
-            cname, a["evals"], a["enum"], len(a["keys"]), sum(a["known_hits"].values()), a["wall"]))
+            cname, a["evals"], a["enum"], len(a["keys"]) + a["extra_nt"], sum(a["known_hits"].values()), a["wall"]))
     if violations:
         for sig, path, detail in violations:
             print("VIOLATION property=%s replay=%s" % (prop_id, path))
